@@ -117,6 +117,12 @@ fn families() -> Vec<Fam> {
         Fam::new("line2", ["<%", "%>", "<%=", "%>", "<%#", "%>", "%%", "%#"]),
         // start delimiter contained in another one
         Fam::new("inner", ["(%", "%)", "((%", "%))", "(#", "#)", "", ""]),
+        // self-overlapping delimiters (a proper prefix is also a suffix) in every role
+        Fam::new("html", ["{{%", "%}}", "<<<", ">>>", "<!--", "-->", "", ""]),
+        Fam::new("doc", ["##{", "##}", "{{", "}}", "/**", "**/", "", ""]),
+        Fam::new("alpha", ["aab", "baa", "abab", "baba", "aaa", "aaa", "", ""]),
+        Fam::new("swap", ["**/", "/**", "-->", "<--", "##}", "{##", "", ""]),
+        Fam::new("lineov", ["{%", "%}", "{{", "}}", "{#", "#}", "--", "---"]),
     ]
 }
 
@@ -290,10 +296,12 @@ fn run_prog(tlk: &str, fam: &str, segs: &str) -> String {
 /// lines: `;`-joined  X<hex> (text line) | S<hex indent>.<hex trail> (statement line, alternating
 /// if t / endif) | K<hex indent>.<hex comment text> (comment line) | Z<hex text>.<hex comment> (text
 /// with a trailing line comment); nl in n|rn|r ; a final `!` item = no newline after the last line.
-/// U+0001 inside a text stands for the family's variable tag `{{ v }}`.
+/// U+0001 inside a text stands for the family's variable tag `{{ v }}`, U+0003 for the raw block
+/// `{% raw %}r{% endraw %}`.
 fn line_sources(f: &Fam, nl: &str, lines: &str) -> (String, String) {
     let vtag = format!("{} v {}", f.vs(), f.ve());
-    let unhexs = |h: &str| unhexs(h).replace('\u{1}', &vtag);
+    let rtag = format!("{} raw {}r{} endraw {}", f.bs(), f.be(), f.bs(), f.be());
+    let unhexs = |h: &str| unhexs(h).replace('\u{1}', &vtag).replace('\u{3}', &rtag);
     let nl = match nl {
         "n" => "\n",
         "rn" => "\r\n",
@@ -691,6 +699,31 @@ fn gen_seg(out: &mut impl Write, tier: &str, rng: &mut Rng, part: &str, chunk: u
             }
         }
     }
+    // non-ASCII whitespace (and NEL, which is whitespace but no line break) in front of every tag
+    {
+        let gs: Vec<&String> = tags.iter().chain(raws_tiny.iter()).collect();
+        for t in ["\u{a0}", "\n\u{a0}", "\n \u{3000}\t", "\u{85}", "\n\u{2003}", "x\u{a0}", "\r\u{202f} "] {
+            for g in &gs {
+                seqs.push(format!("{};{}", t_item(t), g));
+                seqs.push(format!("{};{};T78", t_item(t), g));
+                seqs.push(format!("{};{};{}", g, t_item(t), g));
+            }
+        }
+    }
+    // a byte order mark is text; texts beyond 64 KiB
+    {
+        let big = format!("{}\n  ", "x".repeat(70_000));
+        for s in [
+            format!("T{}", hexs("\u{feff}")),
+            format!("T{};B__;T0a", hexs("\u{feff}")),
+            format!("T{};C__;T{}", hexs("\u{feff} "), hexs("\u{feff}")),
+            format!("T{}", hexs(&big)),
+            format!("T{};B__;T{};B_-;T{}", hexs(&big), hexs(&big), hexs(&big)),
+            format!("T{};V-_;R____{};C__", hexs(&big), hexs(&big)),
+        ] {
+            seqs.push(s);
+        }
+    }
     // richer tag interiors in a few text contexts
     let interiors = interior_items();
     for g in &interiors {
@@ -798,6 +831,40 @@ fn gen_seg(out: &mut impl Write, tier: &str, rng: &mut Rng, part: &str, chunk: u
         }
         for g in &interiors {
             fseqs.push(format!("T20;{};T0a", g));
+        }
+        // texts, comment bodies and raw contents built from the delimiters' own first / last
+        // characters and from delimiters that lack one character
+        {
+            let mut own: Vec<String> = vec![];
+            for k in 0..8 {
+                let dl: Vec<char> = f.d[k].chars().collect();
+                if dl.is_empty() {
+                    continue;
+                }
+                for n in 1..=3 {
+                    own.push(std::iter::repeat(dl[0]).take(n).collect());
+                    own.push(std::iter::repeat(dl[dl.len() - 1]).take(n).collect());
+                }
+                if dl.len() > 1 {
+                    own.push(dl[..dl.len() - 1].iter().collect());
+                    own.push(dl[1..].iter().collect());
+                }
+            }
+            own.sort();
+            own.dedup();
+            let gs: Vec<&String> = tags.iter().chain(raws_tiny.iter()).collect();
+            for o in &own {
+                for g in &gs {
+                    fseqs.push(format!("{};{}", t_item(o), g));
+                    fseqs.push(format!("{};{}", g, t_item(o)));
+                }
+                for (l, r) in [('_', '_'), ('-', '_'), ('_', '-'), ('-', '-'), ('+', '+'), ('_', '+')] {
+                    fseqs.push(format!("T78;K{}{}{};T20", l, r, hexs(o)));
+                    fseqs.push(format!("T78;K{}{}{};T20;C__;T79", l, r, hexs(&format!(" {} ", o))));
+                    fseqs.push(format!("R_{}{}_{};T78", l, r, hexs(o)));
+                    fseqs.push(format!("r_{}{}_{}", l, r, hexs(&format!("x{}", o))));
+                }
+            }
         }
         for s in &fseqs {
             // two settings exhaustively, the others sampled
@@ -944,7 +1011,7 @@ fn gen_line(out: &mut impl Write, tier: &str, rng: &mut Rng) {
     let n = if tier == "thorough" { 40_000 } else { 4_000 };
     let indents = ["", " ", "  ", "\t", " \t "];
     let trails = ["", " ", "  ", "\t"];
-    let texts = ["", "a", "  b", "c  ", " ", "x # y", "\u{1}", "z\u{1} ", "q%", "<p>"];
+    let texts = ["", "a", "  b", "c  ", " ", "x # y", "\u{1}", "z\u{1} ", "q%", "<p>", "\u{3}b", "a\u{3}"];
     let comments = ["", " note", " {{ x", " # if t", "x"];
     for _ in 0..n {
         let f = rng.pick(&fams).clone();
@@ -954,7 +1021,7 @@ fn gen_line(out: &mut impl Write, tier: &str, rng: &mut Rng) {
             match rng.below(8) {
                 0 | 1 | 2 => items.push(format!("X{}", hexs(pk(rng, &texts)))),
                 3 | 4 | 5 => items.push(format!("S{}.{}", hexs(pk(rng, &indents)), hexs(pk(rng, &trails)))),
-                6 => items.push(format!("K{}.{}", hexs(pk(rng, &indents)), hexs(pk(rng, &comments)))),
+                6 => items.push(format!("K{}.{}", hexs(pk(rng, &["", " ", "  ", "\t", " \t ", "\u{a0}", " \u{3000}"])), hexs(pk(rng, &comments)))),
                 _ => items.push(format!("Z{}.{}", hexs(pk(rng, &["a", "b ", "\u{1}  ", "\u{1}"])), hexs(pk(rng, &comments)))),
             }
         }
@@ -1047,6 +1114,251 @@ fn gen_rand(out: &mut impl Write, tier: &str, rng: &mut Rng) {
     }
 }
 
+// -- search kernels ---------------------------------------------------------------------------
+
+const KERN_ALPHA: [u8; 3] = [b'-', b'{', b'%'];
+
+/// all words over the alphabet with length <= n, shorter first, then in alphabet order
+fn kern_words(n: usize) -> Vec<Vec<u8>> {
+    let mut out: Vec<Vec<u8>> = vec![vec![]];
+    let mut level: Vec<Vec<u8>> = vec![vec![]];
+    for _ in 0..n {
+        let mut next = vec![];
+        for w in &level {
+            for c in KERN_ALPHA {
+                let mut x = w.clone();
+                x.push(c);
+                next.push(x);
+            }
+        }
+        out.extend(next.iter().cloned());
+        level = next;
+    }
+    out
+}
+
+fn kern_digit(r: Option<usize>) -> char {
+    match r {
+        Some(i) => char::from_digit(i as u32, 36).unwrap_or('?'),
+        None => '.',
+    }
+}
+
+/// `kern memstr <hex needle>` / `kern memchr <hex byte>`: the real `utils::memstr` / `utils::memchr`
+/// on every haystack of length <= 8 over a 3-letter alphabet (one result character per haystack)
+fn run_kern(which: &str, needle_hex: &str) -> String {
+    let needle = unhex(needle_hex);
+    let hay = kern_words(8);
+    let r = guarded(|| {
+        hay.iter()
+            .map(|h| {
+                if which == "memstr" {
+                    kern_digit(minijinja::verif_hooks::memstr(h, &needle))
+                } else {
+                    kern_digit(minijinja::verif_hooks::memchr(h, needle[0]))
+                }
+            })
+            .collect::<String>()
+    });
+    format!("kern {} {}\tres={}", which, needle_hex, r.unwrap_or_else(|_| "panic".into()))
+}
+
+fn gen_kern(out: &mut impl Write) {
+    for n in kern_words(4).into_iter().skip(1) {
+        emit(out, run_kern("memstr", &hex(&n)));
+    }
+    for c in KERN_ALPHA {
+        emit(out, run_kern("memchr", &hex(&[c])));
+    }
+}
+
+// -- entry points -----------------------------------------------------------------------------
+
+fn ctx() -> minijinja::Value {
+    context! { v => "V", t => true, f => false, seq => vec![1, 2], w => "W" }
+}
+
+fn fmt_res(r: Result<Result<String, minijinja::Error>, String>) -> String {
+    match r {
+        Ok(Ok(s)) => format!("ok:{}", hexs(&s)),
+        Ok(Err(e)) => format!("err:{}", error_kind_name(&e)),
+        Err(_) => "panic".into(),
+    }
+}
+
+fn flip(tlk: &str) -> String {
+    tlk.chars().map(|c| if c == '0' { '1' } else { '0' }).collect()
+}
+
+fn set_tlk(env: &mut Environment<'static>, tlk: &str) {
+    let b = tlk.as_bytes();
+    env.set_trim_blocks(b[0] == b'1');
+    env.set_lstrip_blocks(b[1] == b'1');
+    env.set_keep_trailing_newline(b[2] == b'1');
+}
+
+/// `entry <tlk> <fam> <segs>`: the same source through every way of compiling and rendering a
+/// template; `late_*`: the whitespace settings are flipped after `add_template` (must not matter)
+/// resp. before a loader-backed template is first requested (the flipped settings apply)
+fn run_entry(tlk: &str, fam: &str, segs: &str) -> String {
+    let f = Fam::dec(fam);
+    let src = unparse(&f, segs);
+    let env = match mk_env(tlk, &f) {
+        Some(e) => e,
+        None => return format!("entry {} {} {}\tsrc=\tbadcfg=1", tlk, fam, segs),
+    };
+    let mut fields: Vec<(String, String)> = vec![];
+    let mut put = |k: &str, v: String| fields.push((k.to_string(), v));
+    put("render_str", fmt_res(guarded(|| env.render_str(&src, ctx()))));
+    put("render_named_str", fmt_res(guarded(|| env.render_named_str("n.txt", &src, ctx()))));
+    put("template_from_str", fmt_res(guarded(|| env.template_from_str(&src)?.render(ctx()))));
+    put("template_from_named_str", fmt_res(guarded(|| env.template_from_named_str("n.txt", &src)?.render(ctx()))));
+    put("render_captured", fmt_res(guarded(|| Ok(env.template_from_str(&src)?.render_captured(ctx())?.into_output()))));
+    put(
+        "render_captured_to",
+        fmt_res(guarded(|| {
+            let mut buf: Vec<u8> = vec![];
+            env.template_from_str(&src)?.render_captured_to(ctx(), &mut buf)?;
+            Ok(String::from_utf8(buf).unwrap())
+        })),
+    );
+    // add_template + get_template, then a clone of the environment, then flipped settings
+    let mut env2 = mk_env(tlk, &f).unwrap();
+    let added = guarded(|| env2.add_template_owned("t".to_string(), src.clone()));
+    match added {
+        Ok(Ok(())) => {
+            put("add_template", fmt_res(guarded(|| env2.get_template("t")?.render(ctx()))));
+            let env3 = env2.clone();
+            put("clone", fmt_res(guarded(|| env3.get_template("t")?.render(ctx()))));
+            set_tlk(&mut env2, &flip(tlk));
+            put("late_add", fmt_res(guarded(|| env2.get_template("t")?.render(ctx()))));
+        }
+        Ok(Err(e)) => {
+            let v = format!("err:{}", error_kind_name(&e));
+            put("add_template", v.clone());
+            put("clone", v.clone());
+            put("late_add", v);
+        }
+        Err(_) => put("add_template", "panic".into()),
+    }
+    // loader-backed
+    let mut env4 = mk_env(tlk, &f).unwrap();
+    let s2 = src.clone();
+    env4.set_loader(move |name| Ok(if name == "t" { Some(s2.clone()) } else { None }));
+    let mut env5 = env4.clone();
+    put("loader", fmt_res(guarded(|| env4.get_template("t")?.render(ctx()))));
+    set_tlk(&mut env5, &flip(tlk));
+    put("late_loader", fmt_res(guarded(|| env5.get_template("t")?.render(ctx()))));
+    let envf = mk_env(&flip(tlk), &f).unwrap();
+    put("flipped", fmt_res(guarded(|| envf.render_str(&src, ctx()))));
+    let tok = lex(tlk, &f, &src);
+    let mut line = format!("entry {} {} {}\tsrc={}\ttok={}", tlk, fam, segs, hexs(&src), tok);
+    for (k, v) in fields {
+        line.push_str(&format!("\t{}={}", k, v));
+    }
+    line
+}
+
+fn gen_entry(out: &mut impl Write, tier: &str, rng: &mut Rng) {
+    let n = if tier == "thorough" { 20_000 } else { 2_500 };
+    let fams = families();
+    let texts: Vec<String> = text_core().iter().map(|s| t_item(s)).collect();
+    let tags = tag_items();
+    let raws = raw_items_tiny();
+    for _ in 0..n {
+        let len = 1 + rng.below(4) as usize;
+        let mut parts: Vec<String> = vec![];
+        for _ in 0..len {
+            parts.push(if rng.chance(1, 2) {
+                rng.pick(&texts).clone()
+            } else if rng.chance(1, 6) {
+                rng.pick(&raws).clone()
+            } else {
+                rng.pick(&tags).clone()
+            });
+        }
+        let f = if rng.chance(3, 4) { &fams[0] } else { rng.pick(&fams) };
+        let tlk = *rng.pick(&TLK);
+        emit(out, run_entry(tlk, &f.enc(), &parts.join(";")));
+    }
+}
+
+// -- text inside bodies -----------------------------------------------------------------------
+
+/// `wrap <tlk> <fam> <kind> <segs>`: a body from the segment alphabet inside a for loop / macro /
+/// call block / set block / filter block / block / with / autoescape block (`segs` is the whole
+/// template in the `G` encoding); the expectation is computed by lib/props/c10.py from the rules
+fn run_wrap(tlk: &str, fam: &str, kind: &str, segs: &str) -> String {
+    let f = Fam::dec(fam);
+    let src = unparse(&f, segs);
+    let tok = lex(tlk, &f, &src);
+    let out = match mk_env(tlk, &f) {
+        Some(env) => render(&env, &src),
+        None => "badcfg".into(),
+    };
+    format!("wrap {} {} {} {}\tsrc={}\ttok={}\tout={}", tlk, fam, kind, segs, hexs(&src), tok, out)
+}
+
+fn gen_wrap(out: &mut impl Write, tier: &str, rng: &mut Rng) {
+    let n = if tier == "thorough" { 30_000 } else { 4_000 };
+    let fams = families();
+    let texts: Vec<String> = text_core().iter().map(|s| t_item(s)).collect();
+    let kinds: [(&str, &str, &str); 8] = [
+        ("for", " for i in seq ", " endfor "),
+        ("macro", " macro m() ", " endmacro "),
+        ("set", " set x ", " endset "),
+        ("filter", " filter upper ", " endfilter "),
+        ("block", " block b ", " endblock "),
+        ("call", " call m() ", " endcall "),
+        ("with", " with q = 1 ", " endwith "),
+        ("autoescape", " autoescape false ", " endautoescape "),
+    ];
+    for _ in 0..n {
+        let (kind, open, close) = *rng.pick(&kinds);
+        let mut parts: Vec<String> = vec![];
+        if rng.chance(1, 2) {
+            parts.push(rng.pick(&texts).clone());
+        }
+        if kind == "call" {
+            parts.push(g('b', '_', '_', " macro m() "));
+            parts.push(t_item("["));
+            parts.push(g('v', '_', '_', " caller() "));
+            parts.push(t_item("]"));
+            parts.push(g('b', '_', '_', " endmacro "));
+        }
+        parts.push(g('b', rand_mark(rng), rand_mark(rng), open));
+        // body: texts, variable tags, comments, balanced if/endif, raw
+        let len = rng.below(4) as usize;
+        let mut open_if = false;
+        for _ in 0..len {
+            match rng.below(6) {
+                0 | 1 | 2 => parts.push(rng.pick(&texts).clone()),
+                3 => parts.push(g('v', rand_mark(rng), rand_mark(rng), " v ")),
+                4 => parts.push(g('c', rand_mark(rng), rand_mark(rng), " c ")),
+                _ => {
+                    parts.push(g('b', rand_mark(rng), rand_mark(rng), if open_if { " endif " } else { " if t " }));
+                    open_if = !open_if;
+                }
+            }
+        }
+        if open_if {
+            parts.push(g('b', rand_mark(rng), rand_mark(rng), " endif "));
+        }
+        parts.push(g('b', rand_mark(rng), rand_mark(rng), close));
+        match kind {
+            "macro" => parts.push(g('v', rand_mark(rng), '_', " m() ")),
+            "set" => parts.push(g('v', rand_mark(rng), '_', " x ")),
+            _ => {}
+        }
+        if rng.chance(1, 2) {
+            parts.push(rng.pick(&texts).clone());
+        }
+        let f = if rng.chance(4, 5) { &fams[0] } else { &fams[1 + rng.below(7) as usize] };
+        let tlk = *rng.pick(&TLK);
+        emit(out, run_wrap(tlk, &f.enc(), kind, &parts.join(";")));
+    }
+}
+
 // -- configurations ---------------------------------------------------------------------------
 
 fn gen_cfg(out: &mut impl Write) {
@@ -1109,6 +1421,15 @@ fn main() {
             if which == "all" || which == "rand" {
                 gen_rand(&mut out, &tier, &mut Rng::new(seed ^ 0x40));
             }
+            if which == "all" || which == "kern" {
+                gen_kern(&mut out);
+            }
+            if which == "all" || which == "entry" {
+                gen_entry(&mut out, &tier, &mut Rng::new(seed ^ 0x50));
+            }
+            if which == "all" || which == "wrap" {
+                gen_wrap(&mut out, &tier, &mut Rng::new(seed ^ 0x60));
+            }
             if which == "all" || which == "cfg" {
                 gen_cfg(&mut out);
             }
@@ -1121,6 +1442,9 @@ fn main() {
                 "line" => run_line(a[1], a[2], a[3], a[4]),
                 "cfg" => run_cfg(a[1]),
                 "rand" => run_rand(a[1], a[2], a[3]),
+                "kern" => run_kern(a[1], a[2]),
+                "entry" => run_entry(a[1], a[2], a[3]),
+                "wrap" => run_wrap(a[1], a[2], a[3], a[4]),
                 _ => panic!("bad stream"),
             };
             emit(&mut out, line);
